@@ -17,6 +17,9 @@ mod values;
 mod grammar;
 mod lexical;
 mod parsetotal;
+mod extract;
+mod laws;
+mod total;
 
 use std::process::exit;
 
@@ -29,7 +32,7 @@ fn main() {
     let args: Vec<String> = std::env::args().collect();
     if args.len() < 2 { usage(); }
     // silence panic backtraces of the code under test: they are caught and reported as outcomes
-    std::panic::set_hook(Box::new(|_| {}));
+    if std::env::var("VH_DEBUG").is_err() { std::panic::set_hook(Box::new(|_| {})); }
     common::start_watchdog();
     match args[1].as_str() {
         "replay" if args.len() == 5 => {
@@ -44,6 +47,7 @@ fn main() {
                 "grammar" => grammar::replay(&cases),
                 "lexical" => lexical::replay(&cases),
                 "parsetotal" => parsetotal::replay(&cases),
+                "extract" => extract::replay(&cases),
                 m => { eprintln!("unknown module {}", m); exit(2) }
             };
             common::write_json(&args[4], &report);
@@ -55,6 +59,9 @@ fn main() {
                 "follow" => follow::trace(seed, n),
                 "values" => values::trace(seed, n),
                 "parse" => parsetotal::trace(seed, n),
+                "laws" => laws::trace(seed, n),
+                "total" => total::trace(seed, n),
+                "process" => total::trace_process(seed, n),
                 m => { eprintln!("unknown module {}", m); exit(2) }
             };
             common::write_ndjson(&args[5], &events);
